@@ -66,7 +66,7 @@ where
             "".into()
         };
         let name = if !self.name.is_empty() {
-            format!(":name \"{}\"", &self.name)
+            format!(":name {}", Literal::String(self.name.clone()))
         } else {
             "".into()
         };
